@@ -22,6 +22,12 @@ func c02Ops() []c02op {
 		o = append(o, f(op, "", "x,w", "o", []string{"x:2,2", "w:2"}, "w"))
 		o = append(o, f(op, "", "w,x", "o", []string{"x:1,2", "w:2,1"}, "w"))
 	}
+	// operands that already have the result's shape: broadcasting hands them through unchanged (aliases)
+	for _, op := range []string{"Add", "Sub", "Mul", "Div", "Greater", "Equal"} {
+		o = append(o, f(op, "", "x,w", "o", []string{"x:2,2", "w:2,2"}, "w"))
+	}
+	o = append(o, f("And", "", "x,w", "o", []string{"x:2,2:bool", "w:2,2:bool"}, "w"))
+	o = append(o, f("PRelu", "", "x,s", "o", []string{"x:2,2", "s:2,2"}, "s"))
 	for _, op := range []string{"And", "Or", "Xor"} {
 		o = append(o, f(op, "", "x,w", "o", []string{"x:2,2:bool", "w:2:bool"}, "w"))
 	}
@@ -43,6 +49,17 @@ func c02Ops() []c02op {
 	gm.altB = []string{"x:1,2"}
 	o = append(o, gm)
 	o = append(o, f("Gemm", "transA=1", "x,w,c", "o", []string{"x:2,2", "w:2,2", "c:2,1"}, "w", "c"))
+	// the weight as the FIRST operand (y = W^T x)
+	o = append(o, f("Gemm", "transA=1", "w,x,c", "o", []string{"x:2,2", "w:2,2", "c:2"}, "w", "c"))
+	o = append(o, f("Gemm", "transA=1;transB=1", "w,x", "o", []string{"x:3,2", "w:2,2"}, "w"))
+	// scaled operands (alpha, beta other than 1) and a bias that already has the result's shape
+	o = append(o, f("Gemm", "alpha=2;beta=3", "x,w,c", "o", []string{"x:2,2", "w:2,2", "c:2,2"}, "w", "c"))
+	gb := f("Gemm", "beta=2;transA=1", "x,w,c", "o", []string{"x:2,1", "w:2,2", "c:1,2"}, "w", "c")
+	gb.altB = []string{"x:2,2"}
+	o = append(o, gb)
+	gb = f("Gemm", "alpha=3;beta=2", "x,w,c", "o", []string{"x:2,2", "w:2,2", "c:1,2"}, "w", "c")
+	gb.altB = []string{"x:1,2"}
+	o = append(o, gb)
 	o = append(o, f("Conv", "", "x,k,b", "o", []string{"x:1,1,3,3", "k:2,1,2,2", "b:2"}, "k", "b"))
 	o = append(o, f("Conv", "pads=1,0,0,1;strides=2,1", "x,k,b", "o", []string{"x:2,2,3,4", "k:2,2,2,2", "b:2"}, "k", "b"))
 	o = append(o, f("Conv", "", "x,k", "o", []string{"x:1,2,4", "k:1,2,2"}, "k"))
